@@ -4,6 +4,8 @@ package c01
 import (
 	"fmt"
 	"os"
+	"path/filepath"
+	"strings"
 	"sync/atomic"
 	"time"
 
@@ -20,6 +22,37 @@ type Req struct {
 	Stop   uint64 `json:"stop"`
 	Final  int64  `json:"final"`
 	Mutant string `json:"mutant,omitempty"` // run a one-field mutation of the program instead (history only)
+	// history only: after the request, a class of cache files is evicted: "snapshots" (every full store snapshot),
+	// "last-snapshots" (the highest full snapshot of every store), "outputs" (every cached output file)
+	Evict string `json:"evict,omitempty"`
+}
+
+func evict(dir, class string) {
+	files := sysrun.ListFiles(dir)
+	highest := map[string]string{} // module hash -> highest snapshot
+	for _, f := range files {
+		if strings.Contains(f, "/states/") && strings.Contains(f, ".kv") {
+			parts := strings.Split(f, "/")
+			if f > highest[parts[1]] {
+				highest[parts[1]] = f
+			}
+		}
+	}
+	for _, f := range files {
+		drop := false
+		switch class {
+		case "snapshots":
+			drop = strings.Contains(f, "/states/") && strings.Contains(f, ".kv")
+		case "last-snapshots":
+			parts := strings.Split(f, "/")
+			drop = len(parts) > 1 && highest[parts[1]] == f
+		case "outputs":
+			drop = strings.Contains(f, "/outputs/")
+		}
+		if drop {
+			os.Remove(filepath.Join(dir, "test.store", f))
+		}
+	}
 }
 
 type Case struct {
@@ -97,6 +130,9 @@ func Eval(c Case) (*core.Fail, bool) {
 		}
 		if len(r.Jobs) > 0 {
 			usedCache = true
+		}
+		if h.Evict != "" {
+			evict(dir, h.Evict)
 		}
 	}
 	out := c.Req.Output
@@ -209,6 +245,10 @@ func Run(ctx *core.Ctx) int {
 				if !ctx.Thorough() {
 					histories = histories[:4]
 				}
+				// an earlier request over a shorter range, then a class of its files evicted from the cache
+				for _, ev := range []string{"last-snapshots", "snapshots", "outputs"} {
+					histories = append(histories, []Req{{Prod: true, Start: 9, Stop: 3 * seg, Final: -1, Evict: ev}})
+				}
 				// another output module of the same graph ran before on the same cache
 				for _, o := range programs[name]().Outputs {
 					histories = append(histories, []Req{{Prod: true, Output: o, Start: 9, Stop: 4 * seg, Final: -1}})
@@ -231,7 +271,7 @@ func Run(ctx *core.Ctx) int {
 	ctx.Cov["tier2_jobs_executed"] = jobs
 	ctx.Cov["programs"] = len(names)
 	ctx.Cov["exhaustive"] = true
-	ctx.Cov["rule"] = fmt.Sprintf("%d programs (store->map; two store stages with get and deltas inputs and delete_prefix; two stores in one stage with different initial blocks; block index + filtered map + filtered store; clock-only store + params-only map next to a sparse skip_empty_output mapper; min/set_sum/bigint policies) x segment size %v x {dev, prod} x 4 (start,stop) shapes x final block {unknown, inside, below start} x cache histories {empty; same module other range; dev then prod; a store-body mutant of the graph run first on the same cache (thorough: + a store-initial-block mutant)}. Oracle: the non-empty (number,id,payload) sequence of the request equals (a) the linear reference run of the real system (dev mode from the lowest initial block, empty cache, no tier2 job) and (b) the reference interpreter; no duplicate, increasing, every block from the hand-off on present. Map payloads echo get_first/get_last/get_at/has and store deltas, so the values modules read from stores are compared. Non-trivial: tier2 jobs or cached files were used and a compared payload is non-empty.", len(names), segs)
+	ctx.Cov["rule"] = fmt.Sprintf("%d programs (store->map; two store stages with get and deltas inputs and delete_prefix; two stores in one stage with different initial blocks; block index + filtered map + filtered store; clock-only store + params-only map next to a sparse skip_empty_output mapper; min/set_sum/bigint policies) x segment size %v x {dev, prod} x 4 (start,stop) shapes x final block {unknown, inside, below start} x cache histories {empty; same module other range; dev then prod; a store-body mutant of the graph run first on the same cache (thorough: + a store-initial-block mutant); an earlier shorter request followed by the eviction of {the highest full snapshot of every store, every full snapshot, every cached output}}. Oracle: the non-empty (number,id,payload) sequence of the request equals (a) the linear reference run of the real system (dev mode from the lowest initial block, empty cache, no tier2 job) and (b) the reference interpreter; no duplicate, increasing, every block from the hand-off on present. Map payloads echo get_first/get_last/get_at/has and store deltas, so the values modules read from stores are compared. Non-trivial: tier2 jobs or cached files were used and a compared payload is non-empty.", len(names), segs)
 	ctx.Assume = []string{
 		"the schedule dimension (job completion order, worker count) is explored by the C05 explorer on the same programs; whole-system runs have one effective worker and uncontrolled goroutine timing",
 		"fork-free chain (forks: C03)",
